@@ -44,7 +44,7 @@ Value& ABSExpression::value(Context & ctx) const
     if (val.isNull())
       return val;
     Integer l = *val.integer();
-    v = Value(Integer(l < 0 ? -l : l));
+    v = Value(l < 0 ? Value::wrapNeg(l) : l);
     break;
   }
   case Type::NUMERIC:
